@@ -298,3 +298,115 @@ def default_only_when_absent(func, ret):
         return eval_bool(t, atoms)
     r = runs_under(func, ret, ft)
     return r is False
+
+
+def _open_sites(ctx, funcs):
+    """(func, call, mode, encoding) for builtin open() calls in text mode."""
+    out = []
+    for f in funcs:
+        for n in own_nodes(f.node):
+            if isinstance(n, ast.Call) and dotted(n.func) in ('open', 'io.open'):
+                m = get_arg(n, 1, 'mode')
+                mode = m.value if isinstance(m, ast.Constant) and isinstance(m.value, str) else ('r' if m is None else None)
+                if mode is None or 'b' in mode:
+                    continue
+                e = get_arg(n, 3, 'encoding')
+                enc = e.value if isinstance(e, ast.Constant) else ('<default>' if e is None else '<dynamic>')
+                out.append((f, n, mode, enc))
+    return out
+
+
+def _norm_enc(e):
+    return e.lower().replace('_', '-').replace('utf8', 'utf-8') if isinstance(e, str) else e
+
+
+def _ascii_only_json(ctx):
+    """Every json.dumps that feeds a file receives ensure_ascii=True: constant, or a parameter whose default and
+    every argument at the package's call sites is True."""
+    bad = []
+    wj = ctx.repo.func('utils.write_jsonfile')
+    for n in own_nodes(wj.node):
+        if isinstance(n, ast.Call) and dotted(n.func) in ('json.dumps', 'json.dump'):
+            a = get_arg(n, None, 'ensure_ascii')
+            if a is None:
+                bad.append(f'{wj.loc(n)} json.dumps without ensure_ascii (default True is fine)') if False else None
+                continue
+            if isinstance(a, ast.Constant):
+                if a.value is not True:
+                    bad.append(f'{wj.loc(n)} json.dumps(ensure_ascii={a.value!r})')
+                continue
+            if isinstance(a, ast.Name) and a.id in wj.params:
+                d = wj.param_defaults().get(a.id)
+                if not (isinstance(d, ast.Constant) and d.value is True):
+                    bad.append(f'write_jsonfile default {a.id}={norm(d) if d is not None else None}')
+                # call sites, through wrappers that forward a parameter of their own
+                work, seen = [(wj, a.id)], set()
+                while work:
+                    fn, pname = work.pop()
+                    if (fn.key, pname) in seen:
+                        continue
+                    seen.add((fn.key, pname))
+                    for g in ctx.repo.all_funcs():
+                        for node, cal in ctx.E.callees(g):
+                            if cal is fn and isinstance(node, ast.Call):
+                                v = get_arg(node, None, pname)
+                                if v is None:
+                                    dflt = fn.param_defaults().get(pname)
+                                    if not (isinstance(dflt, ast.Constant) and dflt.value is True):
+                                        bad.append(f'{g.loc(node)} relies on default {pname}={norm(dflt) if dflt is not None else None}')
+                                elif isinstance(v, ast.Constant):
+                                    if v.value is not True:
+                                        bad.append(f'{g.loc(node)} {g.qualname} passes {pname}={v.value!r}')
+                                elif isinstance(v, ast.Name) and v.id in g.params:
+                                    work.append((g, v.id))
+                                else:
+                                    bad.append(f'{g.loc(node)} {g.qualname} passes {pname}={norm(v)}')
+            else:
+                bad.append(f'{wj.loc(n)} ensure_ascii={norm(a)}')
+    return bad
+
+
+def encoding_agreement(ctx, clause, kinds=('text', 'json')):
+    """Writer/reader agreement on the text encoding of the files Darr writes and reads back (R-SIB): a reader decodes
+    with the writer's encoding, or — for JSON only — may use the platform default because everything written is
+    ASCII (ensure_ascii=True on every route)."""
+    funcs = [f for f in ctx.repo.all_funcs() if f.module.name in ('datadir', 'metadata', 'utils')]
+    sites = _open_sites(ctx, funcs)
+
+    def is_json_reader(f):
+        return any(isinstance(n, ast.Call) and dotted(n.func) in ('json.load', 'json.loads') for n in own_nodes(f.node))
+
+    def is_json_writer(f):
+        return any(isinstance(n, ast.Call) and dotted(n.func) in ('json.dumps', 'json.dump') for n in own_nodes(f.node))
+    writers = {'json': [], 'text': []}
+    readers = {'json': [], 'text': []}
+    for f, n, mode, enc in sites:
+        w = any(ch in mode for ch in 'wax+')
+        if w:
+            writers['json' if is_json_writer(f) else 'text'].append((f, n, enc))
+        else:
+            readers['json' if is_json_reader(f) else 'text'].append((f, n, enc))
+    n_ob = 0
+    for kind in kinds:
+        wenc = {_norm_enc(e) for _, _, e in writers[kind]}
+        for f, n, enc in readers[kind]:
+            n_ob += 1
+            inst = f'{f.qualname} decodes the {kind} file with the encoding it was written with ({sorted(wenc)})'
+            if not writers[kind]:
+                ctx.assume('R-SIB', clause, f, n, f'encoding::{kind}', inst, detail='no writer found')
+            elif _norm_enc(enc) in wenc and len(wenc) == 1:
+                ctx.ok('R-SIB', clause, f, n, f'encoding::{kind}', inst)
+            elif enc == '<default>' and kind == 'json':
+                bad = _ascii_only_json(ctx)
+                ctx.decide(not bad, 'R-SIB', clause, f, n, f'encoding::{kind}',
+                           f'{f.qualname} reads with the platform default encoding, which is safe because every JSON file '
+                           f'is written ASCII-only (ensure_ascii=True on every route to json.dumps)',
+                           detail='non-ASCII text can be written as UTF-8 but is decoded with the platform default '
+                                  'encoding: ' + '; '.join(bad[:3]))
+            elif enc == '<dynamic>':
+                ctx.assume('R-SIB', clause, f, n, f'encoding::{kind}', inst, detail='encoding is not a constant')
+            else:
+                ctx.bad('R-SIB', clause, f, n, f'encoding::{kind}', inst,
+                        detail=f'written as {sorted(wenc)} but read as {enc}: text does not round-trip '
+                               f'(a leading BOM is dropped by utf-8-sig; non-ASCII text breaks under a non-UTF-8 locale default)')
+    return n_ob
